@@ -434,6 +434,9 @@ func (g *gen) next() []string {
 	case r < 5:
 		return g.genRegisterTLD()
 	case r < 8:
+		if g.p(35) {
+			return g.genRepeatedSuffix()
+		}
 		return g.genDeepConflict()
 	case r < 11:
 		return g.genCrossTypeSet()
@@ -1107,6 +1110,123 @@ func (g *gen) genDeepConflict() []string {
 			}
 		}
 		tryRegister()
+	}
+	return out
+}
+
+// genRepeatedSuffix: sub-names that contain the whole name once more. Below a registered name p an unregistered direct
+// child c = l.p is chosen; the owner of p stores records (kept under p's token) for names that END with "."+c — true
+// sub-names of c — and contain the text of c a second time further to the left: at a label boundary ("c.c", "x.c.y.c",
+// "c.c.c"; legal, since a TLD string is a valid inner label) and not at a label boundary ("xc.c": the first occurrence
+// follows a letter, the last one a dot). True negatives with the same repetition: "c.xc" (ends with the text of c after a
+// letter: a sub-name of the sibling xc), "c.n.p" (c occurs, but the record is no sub-name of c). Then isAvailable(c) and
+// register(c), the read methods for the sub-names (before and after a registration of c, which shadows them), deletion
+// one by one with isAvailable(c) after each, and the registration of c once it is free.
+func (g *gen) genRepeatedSuffix() []string {
+	var cands []string
+	for _, n := range g.userOwned(2) {
+		if len(labels(n)) <= 3 {
+			cands = append(cands, n)
+		}
+	}
+	if len(cands) == 0 {
+		return g.genRegister()
+	}
+	p := hx.Pick(g.rng, cands)
+	owner := hx.Hex(g.w.prev.names[p].owner)
+	c := ""
+	for _, l := range []string{"cdn", "fs", "a", "b", "xa", "r1", "r2", "r3"} {
+		if _, ok := g.w.prev.names[l+"."+p]; !ok && (c == "" || g.p(35)) {
+			c = l + "." + p
+		}
+	}
+	if c == "" {
+		return g.genRegister()
+	}
+	lab := func() string { return hx.Pick(g.rng, []string{"x", "y", "a", "xa", "node1"}) }
+	var pos, neg []string
+	switch g.rng.IntN(4) { // at least one blocking record, each shape with its own frequency below
+	case 0:
+		pos = append(pos, c+"."+c)
+	case 1:
+		pos = append(pos, "x"+c+"."+c)
+	case 2:
+		pos = append(pos, lab()+"."+c+"."+lab()+"."+c)
+	}
+	if g.p(40) {
+		pos = append(pos, c+"."+c) // the first occurrence starts the record name
+	}
+	if g.p(40) {
+		pos = append(pos, lab()+"."+c+"."+lab()+"."+c) // both occurrences follow a dot
+	}
+	if g.p(40) {
+		pos = append(pos, "x"+c+"."+c) // the first occurrence follows a letter, the last one a dot
+	}
+	if g.p(15) {
+		pos = append(pos, c+"."+c+"."+c) // three occurrences
+	}
+	if g.p(15) {
+		pos = append(pos, lab()+".x"+c+"."+lab()+"."+c)
+	}
+	if g.p(30) {
+		neg = append(neg, c+".x"+c) // the last occurrence follows a letter: below the sibling xc
+	}
+	if g.p(25) {
+		neg = append(neg, c+"."+lab()+"."+p) // contains c, ends with p only
+	}
+	if g.p(15) {
+		neg = append(neg, "x"+c+".x"+c)
+	}
+	seen := map[string]bool{}
+	var recs []string
+	for _, r := range append(pos, neg...) {
+		if !seen[r] && len(r) <= 255 {
+			seen[r] = true
+			recs = append(recs, r)
+		}
+	}
+	if len(recs) == 0 {
+		recs = []string{c + "." + c}
+	}
+	g.rng.Shuffle(len(recs), func(i, j int) { recs[i], recs[j] = recs[j], recs[i] })
+	var out []string
+	u := g.user()
+	tt := fmt.Sprint(typTXT)
+	reads := func() {
+		for _, r := range recs {
+			out = append(out, g.q(g.t, "resolve", hexs(r), tt), g.q(g.t, "getRecords", hexs(r), tt))
+			if g.p(40) {
+				out = append(out, g.q(g.t, "getAllRecords", hexs(r)))
+			}
+		}
+	}
+	tryRegister := func() {
+		t := g.advance()
+		out = append(out, g.q(t, "isAvailable", hexs(c)), g.q(t, "isAvailable", hexs("x"+c)))
+		out = append(out, g.line(t, []string{owner, u}, 0, 0, "register", hexs(c), u, hexs("e@x"), "1", "2", "1000", "4"))
+		out = append(out, g.q(t, "isAvailable", hexs(c)), g.q(t, "ownerOf", hexs(c)))
+	}
+	for _, r := range recs {
+		g.nTXT++
+		out = append(out, g.line(g.advance(), []string{owner}, 0, 0, "addRecord", hexs(r), tt, hexs(fmt.Sprintf("r%d", g.nTXT))))
+		out = append(out, g.q(g.t, "isAvailable", hexs(c)))
+		if g.p(30) {
+			out = append(out, g.q(g.t, "isAvailable", hexs(c+"."+c)), g.q(g.t, "isAvailable", hexs(p+"."+c)))
+		}
+	}
+	reads()
+	tryRegister()
+	reads()
+	if g.p(75) {
+		for i, r := range recs {
+			out = append(out, g.line(g.advance(), []string{owner}, 0, 0, "deleteRecords", hexs(r), tt))
+			out = append(out, g.q(g.t, "isAvailable", hexs(c)))
+			if i+1 < len(recs) && g.p(30) {
+				tryRegister()
+			}
+		}
+		tryRegister()
+		reads()
 	}
 	return out
 }
